@@ -22,6 +22,7 @@ type CtxScenario struct {
 	Nils    []int   `json:"nils"`  // combine: others that are nil
 	Steps   [][]int `json:"steps"` // each step cancels these inputs at once (through one common parent); -1 = the returned cancel func
 	Race    bool    `json:"race,omitempty"` // the first two steps (or construction and the first step) run concurrently
+	CRace   bool    `json:"crace,omitempty"` // with Race: the construction races the first cancellation step
 	Jitter  int     `json:"jitter_ns,omitempty"` // the second racer starts this many ns after the first (busy wait)
 	Profile string  `json:"profile"`
 }
@@ -70,7 +71,16 @@ func genCtxScenario(rng *rand.Rand, profile, mode string) any {
 	if profile == "race" {
 		// cancellations racing each other / racing the construction (free-running mode makes these real races)
 		sc := &CtxScenario{Profile: profile, Race: true, Pre: []int{}, Nils: []int{}, Jitter: rng.Intn(6000)}
-		switch rng.Intn(3) {
+		switch rng.Intn(5) {
+		case 3: // an input of ConflatedContext cancelled while the result is being wired up
+			sc.Kind, sc.N, sc.CRace = "conflated", 2+rng.Intn(4), true
+			sc.Steps = [][]int{{1 + rng.Intn(sc.N)}}
+			if rng.Intn(2) == 0 {
+				sc.Steps = append(sc.Steps, []int{1 + (sc.Steps[0][0] % sc.N)})
+			}
+		case 4: // one of the contexts of a ChainAfterFunc cancelled while the chain is being set up
+			sc.Kind, sc.N, sc.CRace = "chain", 1, true
+			sc.Steps = [][]int{{rng.Intn(2)}}
 		case 0: // both contexts of a ChainAfterFunc cancelled at the same time by two goroutines
 			sc.Kind, sc.N = "chain", 1
 			if rng.Intn(2) == 0 {
@@ -79,7 +89,7 @@ func genCtxScenario(rng *rand.Rand, profile, mode string) any {
 				sc.Steps = [][]int{{1}, {0}}
 			}
 		case 1: // an other of CombineContext cancelled while the combined context is being constructed
-			sc.Kind, sc.N = "combine", 1+rng.Intn(8)
+			sc.Kind, sc.N, sc.CRace = "combine", 1+rng.Intn(8), true
 			sc.Steps = [][]int{{1 + rng.Intn(sc.N)}}
 		default: // inputs of a ConflatedContext cancelled concurrently
 			sc.Kind, sc.N = "conflated", 2+rng.Intn(3)
@@ -281,7 +291,7 @@ func runCtxExec(execID int, sci any, e *Env) []rec.Ev {
 		}
 	}
 	first := 0
-	if sc.Race && sc.Kind == "combine" && len(sc.Steps) > 0 {
+	if sc.Race && (sc.CRace || sc.Kind == "combine") && len(sc.Steps) > 0 {
 		// construction and the first cancellation race
 		e.Spawn("S", func(g string) {
 			if e.Mode != "c" {
